@@ -1144,7 +1144,9 @@ def search_roundtrip(ctx: Ctx) -> SearchResult:
 			h2 = MetaHeader.try_from_content(content)
 			if h2 is None:
 				outcome = 'none'
-			elif h2.app_version != h.app_version:
+			elif json.dumps(h2.app_version) != json.dumps(h.app_version):
+				# compared as JSON text: a str holding a high and a low surrogate side by side (not valid Unicode, cannot come from a
+				# decoded file) is printed like the single non-BMP character and read back as that character
 				outcome = 'version-differs'
 			elif not (h2 == h) or h2.to_json() != h.to_json():
 				outcome = 'differs'
